@@ -373,7 +373,7 @@ fn spawn_tick(mut w: World, timeout: u64) -> Ticker {
 }
 
 /// the eight orderings of {worker: read flag (R), unlock (U)} against {tick: clear (C), try-lock (L), re-arm (A)}
-const ORDERINGS: &[&str] = &["R U C L", "R C U L", "C R U L", "C R L U A", "C R L A U", "C L R A U", "C L A R U", "R C L A U", "C L A return R U"];
+const ORDERINGS: &[&str] = &["R U C L", "R C U L", "C R U L", "C R L U A", "C R L A U", "C L R A U", "C L A R U", "R C L A U", "C L A return R U", "C R L A (tick goes on, worker held) U", "R C L A (tick goes on, worker held) U"];
 
 fn c13_schedule(order: usize, empty_pattern: bool, rng: &mut Rng, id: String, rep: &mut Report) {
     let threads = *rng.pick(&[1usize, 2]);
@@ -489,6 +489,31 @@ fn c13_schedule(order: usize, empty_pattern: bool, rng: &mut Rng, id: String, re
                 std::thread::sleep(Duration::from_micros(200));
             }
             reached &= ticker.result.lock().unwrap().is_some();
+            release(0);
+            reached &= wait_unlock(returns_before);
+        }
+        9 | 10 => {
+            // the worker has taken its decision and keeps holding the lock for a while (e.g. a slow
+            // notify callback) while the tick goes on after re-arming: the tick must not report
+            // `running` (nobody would notify any more), it has to wait for the results
+            if order == 9 {
+                pause_at(Point::TickAfterClearNotify);
+                ticker = spawn_tick(w, 0);
+                reached &= wait_paused(1, 2000);
+                release_to(0, Some(Point::RunAfterNotify));
+                reached &= wait_paused(0, 2000);
+                release_to(1, Some(Point::TickAfterRearm));
+                reached &= wait_paused(1, 2000);
+            } else {
+                release_to(0, Some(Point::RunAfterNotify));
+                reached &= wait_paused(0, 2000);
+                pause_at(Point::TickAfterRearm);
+                ticker = spawn_tick(w, 0);
+                reached &= wait_paused(1, 2000);
+            }
+            release(1);
+            // steering delay only: longer than any bounded retry a tick with timeout 0 could make
+            std::thread::sleep(Duration::from_millis(25));
             release(0);
             reached &= wait_unlock(returns_before);
         }
@@ -767,7 +792,7 @@ pub fn run_c13(opts: &Opts, rep: &mut Report) {
         set_delays(false);
         match idx % 20 {
             0..=17 => {
-                let order = (idx % 9) as usize;
+                let order = ((idx / 20 * 18 + idx % 20) % 11) as usize;
                 let empty = (idx % 20) >= 9;
                 c13_schedule(order, empty, &mut rng, id, rep);
             }
@@ -781,7 +806,7 @@ pub fn run_c13(opts: &Opts, rep: &mut Report) {
         rep.count("histories");
         rep.distinct(mix(&[opts.seed, opts.shard, idx]));
         if rep.want_sample() && idx % 7 == 0 {
-            rep.sample(jobj! {"kind" => if idx % 20 < 18 { format!("directed ordering [{}] empty_pattern={}", ORDERINGS[(idx % 9) as usize], (idx % 20) >= 9) } else if idx % 20 == 18 { "injector clause".into() } else { "event loop with delays".to_string() }});
+            rep.sample(jobj! {"kind" => if idx % 20 < 18 { format!("directed ordering [{}] empty_pattern={}", ORDERINGS[((idx / 20 * 18 + idx % 20) % 11) as usize], (idx % 20) >= 9) } else if idx % 20 == 18 { "injector clause".into() } else { "event loop with delays".to_string() }});
         }
         let timeouts = with_ctl(|c| std::mem::take(&mut c.pause_timeouts));
         rep.add("pause-timeouts", timeouts);
